@@ -80,6 +80,8 @@ class Gateway:
     async def send(self, message: Message, *, message_buffer: bool = True) -> None:
         """Send a message."""
         # Check valid message first.
+        if not isinstance(message, Message):
+            raise InvalidMessageError(TypeError("Not a message"), message)
         try:
             decoded_message: str = self._message_schema.dump(message)
         except ValidationError as err:
